@@ -75,9 +75,15 @@ var props = map[string]propCfg{
 	"C04": {kinds: "X", oracle: true, rule: "distinct members of the vector grammar built from the shipped lists; all non-trivial",
 		stream: func(c *corpus, r *rng, t string) *inputSet { return grammarXSSStream(r, t) }},
 	"C06": {kinds: "TFPV", oracle: false, rule: "distinct input strings, each compared in 6 modes at full width; non-trivial = at least 2 tokens in as-is/ANSI mode",
-		stream: func(c *corpus, r *rng, t string) *inputSet { return sqlAll(c, r, t, 1) }},
+		stream: func(c *corpus, r *rng, t string) *inputSet {
+			// the full-width tie: the general streams plus a sample of every
+			// property-specific stream of the SQL side
+			return withSamples(sqlAll(c, r, t, 1), t, grammarSQLStream(r, t), verdictStream(c, r, t), cascadeStream(c, r, t), benignStream(c, r, t), literalStream(c, r, t))
+		}},
 	"C07": {kinds: "HXDUGA", oracle: false, rule: "distinct input strings, each compared in 5 contexts; non-trivial = contains '<' or '=' or '&'",
-		stream: func(c *corpus, r *rng, t string) *inputSet { return htmlAll(c, r, t, 1) }},
+		stream: func(c *corpus, r *rng, t string) *inputSet {
+			return withSamples(htmlAll(c, r, t, 1), t, grammarXSSStream(r, t), constructStream(c, r, t), decoderStream(c, r, t))
+		}},
 	"C08": {kinds: "PV", oracle: true, rule: "distinct inputs; non-trivial = IsSQLi verdict true (the consistency clauses bind)",
 		stream: func(c *corpus, r *rng, t string) *inputSet { return verdictStream(c, r, t) }},
 	"C10": {kinds: "V", oracle: true, rule: "distinct base inputs, each with up to 6 case variants; non-trivial = has an ASCII letter outside exempt positions",
@@ -118,6 +124,25 @@ var props = map[string]propCfg{
 		stream: func(c *corpus, r *rng, t string) *inputSet { return literalStream(c, r, t) }},
 	"C19": {kinds: "DU", oracle: true, rule: "distinct decoder inputs / seeds of scheme encodings; non-trivial = contains '&#'",
 		stream: func(c *corpus, r *rng, t string) *inputSet { return decoderStream(c, r, t) }},
+}
+
+// withSamples adds to base an evenly spread sample (quick: at most 6 000 inputs,
+// thorough: 60 000) of each extra stream, keeping the stream names.
+func withSamples(base *inputSet, tier string, extras ...*inputSet) *inputSet {
+	max := 6000
+	if tier == "thorough" {
+		max = 60000
+	}
+	for _, e := range extras {
+		step := 1
+		if len(e.list) > max {
+			step = (len(e.list) + max - 1) / max
+		}
+		for i := 0; i < len(e.list); i += step {
+			base.add("sample-of-property-streams", e.list[i])
+		}
+	}
+	return base
 }
 
 func nontrivial(prop, in string) bool {
